@@ -69,3 +69,99 @@ Theorem ghost_bias_3d_old_refuted :
 Proof.
   exists 2%nat, 1%nat, (fun _ _ => 2). unfold true_norm_sq_bias, ghost_sq_bias_3d_old, gs_bias, ggT, nsq. cbn. lra.
 Qed.
+
+(* ---------------- nn.Embedding ---------------- *)
+From Coq Require Import Arith Permutation Lia.
+Import ListNotations.
+
+Lemma lsum_cons a (l : list nat) (f : nat -> R) : lsum (a :: l) f = f a + lsum l f.
+Proof. reflexivity. Qed.
+Lemma lsum_perm (l1 l2 : list nat) (f : nat -> R) : Permutation l1 l2 -> lsum l1 f = lsum l2 f.
+Proof.
+  induction 1 as [|x l l' _ IH|x y l|l l' l'' _ IH1 _ IH2]; rewrite ?lsum_cons; try lra; try congruence.
+Qed.
+Lemma lsum_ext (l : list nat) (f g : nat -> R) : (forall v, In v l -> f v = g v) -> lsum l f = lsum l g.
+Proof.
+  induction l as [|a l IH]; intros H; [reflexivity|]. rewrite !lsum_cons, H by (left; reflexivity). rewrite IH; [reflexivity|].
+  intros v Hv. apply H. now right.
+Qed.
+Lemma lsum_filter_zero (l : list nat) (keep : nat -> bool) (f : nat -> R) :
+  (forall v, In v l -> keep v = false -> f v = 0) -> lsum l f = lsum (filter keep l) f.
+Proof.
+  induction l as [|a l IH]; intros H; cbn [filter]; [reflexivity|].
+  assert (IH' : lsum l f = lsum (filter keep l) f) by (apply IH; intros v Hv; apply H; now right).
+  destruct (keep a) eqn:K; rewrite ?lsum_cons.
+  - now rewrite IH'.
+  - rewrite (H a (or_introl eq_refl) K), IH'. lra.
+Qed.
+Lemma lsum_app (l1 l2 : list nat) (f : nat -> R) : lsum (l1 ++ l2) f = lsum l1 f + lsum l2 f.
+Proof. induction l1 as [|a l IH]; cbn [app]; rewrite ?lsum_cons; [unfold lsum; cbn; lra|]. rewrite IH. lra. Qed.
+Lemma sum_n_seq n (f : nat -> R) : sum_n n f = lsum (seq 0 n) f.
+Proof.
+  induction n as [|n IH]; [reflexivity|]. rewrite seq_S, lsum_app. cbn [sum_n plus nadd NumR]. rewrite IH.
+  rewrite lsum_cons. unfold lsum at 3. cbn. lra.
+Qed.
+
+(* a sum over the whole vocabulary of a function that vanishes on ids absent from the row = the sum over the distinct ids of the row *)
+Lemma vocab_sum_row_ids (V L : nat) (idx : nat -> nat) (f : nat -> R) :
+  (forall t, (t < L)%nat -> (idx t < V)%nat) ->
+  (forall v, ~ In v (map idx (seq 0 L)) -> f v = 0) ->
+  sum_n V f = lsum (row_ids L idx) f.
+Proof.
+  intros B Z. rewrite sum_n_seq.
+  set (ids := map idx (seq 0 L)).
+  rewrite (lsum_filter_zero (seq 0 V) (fun v => if in_dec Nat.eq_dec v ids then true else false) f).
+  2: { intros v _ K. destruct (in_dec Nat.eq_dec v ids) as [|NI]; [discriminate|]. apply Z. exact NI. }
+  apply lsum_perm. apply NoDup_Permutation.
+  - apply NoDup_filter. apply seq_NoDup.
+  - unfold row_ids. apply NoDup_nodup.
+  - intros v. unfold row_ids. rewrite nodup_In, filter_In, in_seq. fold ids. split.
+    + intros (_ & K). destruct (in_dec Nat.eq_dec v ids); [assumption|discriminate].
+    + intros I. split.
+      * unfold ids in I. apply in_map_iff in I. destruct I as (t & <- & It). apply in_seq in It. specialize (B t). lia.
+      * destruct (in_dec Nat.eq_dec v ids); [reflexivity|contradiction].
+Qed.
+
+Lemma sum_n_absent (L : nat) (idx : nat -> nat) (v : nat) (h : nat -> R) :
+  ~ In v (map idx (seq 0 L)) -> sum_n L (fun t => if Nat.eqb (idx t) v then h t else 0) = 0.
+Proof.
+  intros NI. rewrite (sum_n_ext L _ (fun _ => 0)); [apply sum_n_zero|].
+  intros t Ht. destruct (Nat.eqb_spec (idx t) v) as [E|]; [|reflexivity].
+  exfalso. apply NI. rewrite <- E. apply in_map. apply in_seq. lia.
+Qed.
+
+(* the ghost norm of the embedding layer is the norm of its per-sample gradient: for every vocabulary size, row length,
+   embedding dimension, ids within the vocabulary and optional padding index *)
+Theorem ghost_embedding (pad : option nat) (V L D : nat) (idx : nat -> nat) (g : nat -> nat -> R) :
+  (forall t, (t < L)%nat -> (idx t < V)%nat) ->
+  true_norm_sq_embedding pad V L D idx g = ghost_sq_embedding pad L D idx g.
+Proof.
+  intros B. unfold true_norm_sq_embedding, ghost_sq_embedding.
+  rewrite (vocab_sum_row_ids V L idx _ B).
+  - apply lsum_ext. intros v _. apply sum_n_ext. intros d _. unfold nsq. cbn [nmul NumR]. f_equal.
+    all: unfold emb_gs_row, emb_masked; destruct pad as [p|]; try reflexivity.
+    all: destruct (Nat.eqb_spec v p) as [E|NE]; cbn [n0 NumR].
+    all: try (subst v; symmetry; rewrite (sum_n_ext L _ (fun _ => 0)); [apply sum_n_zero|]; intros t _; destruct (Nat.eqb (idx t) p); reflexivity).
+    all: apply sum_n_ext; intros t _; destruct (Nat.eqb_spec (idx t) v) as [E1|]; [|reflexivity];
+         destruct (Nat.eqb_spec (idx t) p) as [E2|]; [congruence|reflexivity].
+  - intros v NI. rewrite (sum_n_ext D _ (fun _ => 0)); [apply sum_n_zero|]. intros d _.
+    unfold nsq, emb_gs_row. cbn [nmul n0 NumR]. destruct pad as [p|]; [destruct (Nat.eqb v p); [lra|]|];
+      rewrite (sum_n_absent L idx v (fun t => g t d) NI); lra.
+Qed.
+
+(* without the masking (the sampler before the repair) the norm counts the padding row: one position holding the padding index *)
+Theorem ghost_embedding_old_refuted :
+  exists (V L D : nat) (idx : nat -> nat) (g : nat -> nat -> R),
+    (forall t, (t < L)%nat -> (idx t < V)%nat) /\ true_norm_sq_embedding (Some 0%nat) V L D idx g <> ghost_sq_embedding_old L D idx g.
+Proof.
+  exists 1%nat, 1%nat, 1%nat, (fun _ => 0%nat), (fun _ _ => 1). split; [intros; lia|].
+  unfold true_norm_sq_embedding, ghost_sq_embedding_old, ghost_sq_embedding, row_ids, emb_gs_row, emb_masked, lsum, nsq. cbn. lra.
+Qed.
+
+(* the per-sample gradient used above is the grad sampler's formula of Model/Layers (shown in C01 to be the sample's own gradient) *)
+From OV Require Model.Layers.
+Lemma sum_n_is_sumn n (f : nat -> R) : sum_n n f = Layers.sumn R 0 Rplus n f.
+Proof. induction n as [|n IH]; cbn; [reflexivity|]. now rewrite IH. Qed.
+Lemma emb_gs_row_is_layers (pad : option nat) (L : nat) (idx : nat -> nat) (g : nat -> nat -> R) (v d : nat) :
+  emb_gs_row pad L idx g v d = Layers.emb_gs R 0 Rplus pad L g idx v d.
+Proof. unfold emb_gs_row, Layers.emb_gs. destruct pad as [p|]; [destruct (Nat.eqb v p); [reflexivity|]|]; apply sum_n_is_sumn. Qed.
